@@ -135,7 +135,7 @@ theorem stepQuery_ops {w s h b s'} (hs : stepQuery w s h b = some s') : OpsMap s
   unfold stepQuery at hs; ops_crush hs
 theorem stepCbBegin_ops {w s cb s'} (hs : stepCbBegin w s cb = some s') : OpsMap s s' := by
   unfold stepCbBegin at hs; ops_crush hs
-theorem stepCbEnd_ops {s cb ok s'} (hs : stepCbEnd s cb ok = some s') : OpsMap s s' := by
+theorem stepCbEnd_ops {w s cb ok s'} (hs : stepCbEnd w s cb ok = some s') : OpsMap s s' := by
   unfold stepCbEnd at hs
   repeat' (split at hs)
   all_goals first
